@@ -156,4 +156,434 @@ theorem toZ_getD (env : List Nat) (i : Nat) : (toZ env).getD i 0 = ((env.getD i 
 theorem toZ_snoc (env : List Nat) (x : Nat) : toZ (env ++ [x]) = toZ env ++ [(x : Int)] := by
   simp [toZ]
 
+
+/-! ### expressions -/
+
+theorem E.norm_sound {ienv : List Itv} {env : List Nat} (h : EnvIn env ienv) :
+    ∀ (e : E) (t : Itv) (ne : NE), e.norm ienv = some (t, ne) →
+      ∃ x, e.evalC env = some x ∧ t.mem x ∧ e.evalW env = x ∧ ne.evalZ (toZ env) = (x : Int) := by
+  intro e
+  induction e with
+  | v i =>
+    intro t ne hn
+    simp only [E.norm, Option.map_eq_some_iff, Prod.mk.injEq] at hn
+    obtain ⟨t', ht, rfl, rfl⟩ := hn
+    obtain ⟨x, hx, hm⟩ := EnvIn_get h ht
+    refine ⟨x, hx, hm, ?_, ?_⟩
+    · simp [E.evalW, List.getD_eq_getElem?_getD, hx]
+    · rw [NE.evalZ, toZ_getD, List.getD_eq_getElem?_getD, hx]; rfl
+  | c n =>
+    intro t ne hn
+    simp only [E.norm, Option.some.injEq, Prod.mk.injEq] at hn
+    obtain ⟨rfl, rfl⟩ := hn
+    exact ⟨n, rfl, ⟨Nat.le_refl _, Nat.le_refl _, tzOf_dvd _ _⟩, rfl, rfl⟩
+  | add w a b iha ihb =>
+    intro t ne hn
+    simp only [E.norm, Option.bind_eq_bind, Option.bind_eq_some_iff] at hn
+    obtain ⟨⟨ia, na⟩, ha, ⟨ib, nb⟩, hb, hn⟩ := hn
+    obtain ⟨x, hxc, ⟨hxl, hxh, hxd⟩, hxw, hxz⟩ := iha _ _ ha
+    obtain ⟨y, hyc, ⟨hyl, hyh, hyd⟩, hyw, hyz⟩ := ihb _ _ hb
+    simp only at hn
+    split at hn
+    · rename_i hlt
+      simp only [Option.some.injEq, Prod.mk.injEq] at hn
+      obtain ⟨rfl, rfl⟩ := hn
+      have hlt' : x + y < 2 ^ w := by omega
+      refine ⟨x + y, ?_, ⟨?_, ?_, ?_⟩, ?_, ?_⟩
+      · simp [E.evalC, hxc, hyc, chk, hlt']
+      · show ia.lo + ib.lo ≤ x + y; omega
+      · show x + y ≤ ia.hi + ib.hi; omega
+      · exact Nat.dvd_add (pow_min_dvd_l hxd) (pow_min_dvd_r hyd)
+      · simp [E.evalW, hxw, hyw, Nat.mod_eq_of_lt hlt']
+      · simp [NE.evalZ, hxz, hyz]
+    · simp at hn
+  | sub w a b iha ihb =>
+    intro t ne hn
+    simp only [E.norm, Option.bind_eq_bind, Option.bind_eq_some_iff] at hn
+    obtain ⟨⟨ia, na⟩, ha, ⟨ib, nb⟩, hb, hn⟩ := hn
+    obtain ⟨x, hxc, ⟨hxl, hxh, hxd⟩, hxw, hxz⟩ := iha _ _ ha
+    obtain ⟨y, hyc, ⟨hyl, hyh, hyd⟩, hyw, hyz⟩ := ihb _ _ hb
+    simp only at hn
+    split at hn
+    · rename_i hc
+      simp only [Option.some.injEq, Prod.mk.injEq] at hn
+      obtain ⟨rfl, rfl⟩ := hn
+      have hyx : y ≤ x := by omega
+      have hx2 : x < 2 ^ w := by omega
+      have hlt' : x - y < 2 ^ w := by omega
+      refine ⟨x - y, ?_, ⟨?_, ?_, ?_⟩, ?_, ?_⟩
+      · simp [E.evalC, hxc, hyc, chk, hlt', hyx]
+      · show ia.lo - ib.hi ≤ x - y; omega
+      · show x - y ≤ ia.hi - ib.lo; omega
+      · exact Nat.dvd_sub (pow_min_dvd_l hxd) (pow_min_dvd_r hyd)
+      · simp only [E.evalW, hxw, hyw]; exact wsub_noflow hyx hx2
+      · simp only [NE.evalZ, hxz, hyz]; omega
+    · simp at hn
+  | mul w a b iha ihb =>
+    intro t ne hn
+    simp only [E.norm, Option.bind_eq_bind, Option.bind_eq_some_iff] at hn
+    obtain ⟨⟨ia, na⟩, ha, ⟨ib, nb⟩, hb, hn⟩ := hn
+    obtain ⟨x, hxc, ⟨hxl, hxh, hxd⟩, hxw, hxz⟩ := iha _ _ ha
+    obtain ⟨y, hyc, ⟨hyl, hyh, hyd⟩, hyw, hyz⟩ := ihb _ _ hb
+    simp only at hn
+    split at hn
+    · rename_i hlt
+      simp only [Option.some.injEq, Prod.mk.injEq] at hn
+      obtain ⟨rfl, rfl⟩ := hn
+      have hle : x * y ≤ ia.hi * ib.hi := Nat.mul_le_mul hxh hyh
+      have hlt' : x * y < 2 ^ w := by omega
+      refine ⟨x * y, ?_, ⟨?_, ?_, ?_⟩, ?_, ?_⟩
+      · simp [E.evalC, hxc, hyc, chk, hlt']
+      · exact Nat.mul_le_mul hxl hyl
+      · exact hle
+      · show 2 ^ (ia.tz + ib.tz) ∣ x * y
+        rw [Nat.pow_add]; exact Nat.mul_dvd_mul hxd hyd
+      · simp [E.evalW, hxw, hyw, Nat.mod_eq_of_lt hlt']
+      · simp [NE.evalZ, hxz, hyz]
+    · simp at hn
+  | wadd w a b iha ihb =>
+    intro t ne hn
+    simp only [E.norm, Option.bind_eq_bind, Option.bind_eq_some_iff] at hn
+    obtain ⟨⟨ia, na⟩, ha, ⟨ib, nb⟩, hb, hn⟩ := hn
+    obtain ⟨x, hxc, ⟨hxl, hxh, hxd⟩, hxw, hxz⟩ := iha _ _ ha
+    obtain ⟨y, hyc, ⟨hyl, hyh, hyd⟩, hyw, hyz⟩ := ihb _ _ hb
+    simp only at hn
+    split at hn
+    · rename_i hlt
+      simp only [Option.some.injEq, Prod.mk.injEq] at hn
+      obtain ⟨rfl, rfl⟩ := hn
+      have hlt' : x + y < 2 ^ w := by omega
+      refine ⟨x + y, ?_, ⟨?_, ?_, ?_⟩, ?_, ?_⟩
+      · simp [E.evalC, hxc, hyc, Nat.mod_eq_of_lt hlt']
+      · show ia.lo + ib.lo ≤ x + y; omega
+      · show x + y ≤ ia.hi + ib.hi; omega
+      · exact Nat.dvd_add (pow_min_dvd_l hxd) (pow_min_dvd_r hyd)
+      · simp [E.evalW, hxw, hyw, Nat.mod_eq_of_lt hlt']
+      · simp [NE.evalZ, hxz, hyz]
+    ·
+      simp only [Option.some.injEq, Prod.mk.injEq] at hn
+      obtain ⟨rfl, rfl⟩ := hn
+      refine ⟨(x + y) % 2 ^ w, ?_, ⟨Nat.zero_le _, le_pow_sub_one_of_mod _ _, ?_⟩, ?_, ?_⟩
+      · simp [E.evalC, hxc, hyc]
+      · exact pow_min_dvd_mod (Nat.dvd_add (pow_min_dvd_l hxd) (pow_min_dvd_r hyd))
+      · simp [E.evalW, hxw, hyw]
+      · simp [NE.evalZ, hxz, hyz]
+  | wsub w a b iha ihb =>
+    intro t ne hn
+    simp only [E.norm, Option.bind_eq_bind, Option.bind_eq_some_iff] at hn
+    obtain ⟨⟨ia, na⟩, ha, ⟨ib, nb⟩, hb, hn⟩ := hn
+    obtain ⟨x, hxc, ⟨hxl, hxh, hxd⟩, hxw, hxz⟩ := iha _ _ ha
+    obtain ⟨y, hyc, ⟨hyl, hyh, hyd⟩, hyw, hyz⟩ := ihb _ _ hb
+    simp only at hn
+    split at hn
+    · rename_i hc
+      simp only [Option.some.injEq, Prod.mk.injEq] at hn
+      obtain ⟨rfl, rfl⟩ := hn
+      have hyx : y ≤ x := by omega
+      have hx2 : x < 2 ^ w := by omega
+      refine ⟨x - y, ?_, ⟨?_, ?_, ?_⟩, ?_, ?_⟩
+      · simp [E.evalC, hxc, hyc, wsub_noflow hyx hx2]
+      · show ia.lo - ib.hi ≤ x - y; omega
+      · show x - y ≤ ia.hi - ib.lo; omega
+      · exact Nat.dvd_sub (pow_min_dvd_l hxd) (pow_min_dvd_r hyd)
+      · simp only [E.evalW, hxw, hyw]; exact wsub_noflow hyx hx2
+      · simp only [NE.evalZ, hxz, hyz]; omega
+    ·
+      simp only [Option.some.injEq, Prod.mk.injEq] at hn
+      obtain ⟨rfl, rfl⟩ := hn
+      refine ⟨(x + (2 ^ w - y % 2 ^ w)) % 2 ^ w, ?_, ⟨Nat.zero_le _, le_pow_sub_one_of_mod _ _, ?_⟩, ?_, ?_⟩
+      · simp [E.evalC, hxc, hyc]
+      · exact wsub_dvd (pow_min_dvd_l hxd) (pow_min_dvd_r hyd)
+      · simp [E.evalW, hxw, hyw]
+      · simp only [NE.evalZ, hxz, hyz]; exact (wsub_int x y w).symm
+  | wmul w a b iha ihb =>
+    intro t ne hn
+    simp only [E.norm, Option.bind_eq_bind, Option.bind_eq_some_iff] at hn
+    obtain ⟨⟨ia, na⟩, ha, ⟨ib, nb⟩, hb, hn⟩ := hn
+    obtain ⟨x, hxc, ⟨hxl, hxh, hxd⟩, hxw, hxz⟩ := iha _ _ ha
+    obtain ⟨y, hyc, ⟨hyl, hyh, hyd⟩, hyw, hyz⟩ := ihb _ _ hb
+    simp only at hn
+    have hdvd : 2 ^ (ia.tz + ib.tz) ∣ x * y := by
+      rw [Nat.pow_add]; exact Nat.mul_dvd_mul hxd hyd
+    split at hn
+    · rename_i hlt
+      simp only [Option.some.injEq, Prod.mk.injEq] at hn
+      obtain ⟨rfl, rfl⟩ := hn
+      have hle : x * y ≤ ia.hi * ib.hi := Nat.mul_le_mul hxh hyh
+      have hlt' : x * y < 2 ^ w := by omega
+      refine ⟨x * y, ?_, ⟨?_, ?_, ?_⟩, ?_, ?_⟩
+      · simp [E.evalC, hxc, hyc, Nat.mod_eq_of_lt hlt']
+      · exact Nat.mul_le_mul hxl hyl
+      · exact hle
+      · exact hdvd
+      · simp [E.evalW, hxw, hyw, Nat.mod_eq_of_lt hlt']
+      · simp [NE.evalZ, hxz, hyz]
+    ·
+      simp only [Option.some.injEq, Prod.mk.injEq] at hn
+      obtain ⟨rfl, rfl⟩ := hn
+      refine ⟨(x * y) % 2 ^ w, ?_, ⟨Nat.zero_le _, le_pow_sub_one_of_mod _ _, ?_⟩, ?_, ?_⟩
+      · simp [E.evalC, hxc, hyc]
+      · exact pow_min_dvd_mod hdvd
+      · simp [E.evalW, hxw, hyw]
+      · simp [NE.evalZ, hxz, hyz]
+  | shr a k iha =>
+    intro t ne hn
+    simp only [E.norm, Option.bind_eq_bind, Option.bind_eq_some_iff] at hn
+    obtain ⟨⟨ia, na⟩, ha, hn⟩ := hn
+    obtain ⟨x, hxc, ⟨hxl, hxh, hxd⟩, hxw, hxz⟩ := iha _ _ ha
+    simp only at hn
+    simp only [Option.some.injEq, Prod.mk.injEq] at hn
+    obtain ⟨rfl, rfl⟩ := hn
+    refine ⟨x / 2 ^ k, ?_, ⟨?_, ?_, ?_⟩, ?_, ?_⟩
+    · simp [E.evalC, hxc]
+    · exact Nat.div_le_div_right hxl
+    · exact Nat.div_le_div_right hxh
+    · exact shr_dvd hxd
+    · simp [E.evalW, hxw]
+    · simp [NE.evalZ, hxz]
+  | shl w a k iha =>
+    intro t ne hn
+    simp only [E.norm, Option.bind_eq_bind, Option.bind_eq_some_iff] at hn
+    obtain ⟨⟨ia, na⟩, ha, hn⟩ := hn
+    obtain ⟨x, hxc, ⟨hxl, hxh, hxd⟩, hxw, hxz⟩ := iha _ _ ha
+    simp only at hn
+    have hdvd : 2 ^ (ia.tz + k) ∣ x * 2 ^ k := by
+      rw [Nat.pow_add]; exact Nat.mul_dvd_mul hxd (Nat.dvd_refl _)
+    split at hn
+    · rename_i hlt
+      simp only [Option.some.injEq, Prod.mk.injEq] at hn
+      obtain ⟨rfl, rfl⟩ := hn
+      have hle : x * 2 ^ k ≤ ia.hi * 2 ^ k := Nat.mul_le_mul_right _ hxh
+      have hlt' : x * 2 ^ k < 2 ^ w := by omega
+      refine ⟨x * 2 ^ k, ?_, ⟨?_, ?_, ?_⟩, ?_, ?_⟩
+      · simp [E.evalC, hxc, Nat.mod_eq_of_lt hlt']
+      · exact Nat.mul_le_mul_right _ hxl
+      · exact hle
+      · exact hdvd
+      · simp [E.evalW, hxw, Nat.mod_eq_of_lt hlt']
+      · simp [NE.evalZ, hxz]
+    ·
+      simp only [Option.some.injEq, Prod.mk.injEq] at hn
+      obtain ⟨rfl, rfl⟩ := hn
+      refine ⟨(x * 2 ^ k) % 2 ^ w, ?_, ⟨Nat.zero_le _, le_pow_sub_one_of_mod _ _, ?_⟩, ?_, ?_⟩
+      · simp [E.evalC, hxc]
+      · exact pow_min_dvd_mod hdvd
+      · simp [E.evalW, hxw]
+      · simp [NE.evalZ, hxz]
+  | band a b iha ihb =>
+    intro t ne hn
+    simp only [E.norm, Option.bind_eq_bind, Option.bind_eq_some_iff] at hn
+    obtain ⟨⟨ia, na⟩, ha, ⟨ib, nb⟩, hb, hn⟩ := hn
+    obtain ⟨x, hxc, ⟨hxl, hxh, hxd⟩, hxw, hxz⟩ := iha _ _ ha
+    obtain ⟨y, hyc, ⟨hyl, hyh, hyd⟩, hyw, hyz⟩ := ihb _ _ hb
+    simp only at hn
+    split at hn
+    · rename_i k hk
+      split at hk
+      · rename_i hlh
+        have hy : y = 2 ^ k - 1 := by
+          have := isMask_eq hk; omega
+        have hand : x &&& y = x % 2 ^ k := by rw [hy]; exact Nat.and_two_pow_sub_one_eq_mod x k
+        split at hn
+        · rename_i hlt
+          simp only [Option.some.injEq, Prod.mk.injEq] at hn
+          obtain ⟨rfl, rfl⟩ := hn
+          have hx2 : x % 2 ^ k = x := Nat.mod_eq_of_lt (by omega)
+          refine ⟨x, ?_, ⟨hxl, hxh, hxd⟩, ?_, hxz⟩
+          · simp [E.evalC, hxc, hyc, hand, hx2]
+          · simp [E.evalW, hxw, hyw, hand, hx2]
+        ·
+          simp only [Option.some.injEq, Prod.mk.injEq] at hn
+          obtain ⟨rfl, rfl⟩ := hn
+          refine ⟨x % 2 ^ k, ?_, ⟨Nat.zero_le _, le_pow_sub_one_of_mod _ _, pow_min_dvd_mod hxd⟩, ?_, ?_⟩
+          · simp [E.evalC, hxc, hyc, hand]
+          · simp [E.evalW, hxw, hyw, hand]
+          · simp [NE.evalZ, hxz]
+      · simp at hk
+    ·
+      simp only [Option.some.injEq, Prod.mk.injEq] at hn
+      obtain ⟨rfl, rfl⟩ := hn
+      refine ⟨x &&& y, ?_, ⟨Nat.zero_le _, ?_, Nat.one_dvd _⟩, ?_, ?_⟩
+      · simp [E.evalC, hxc, hyc]
+      · have h1 : x &&& y ≤ x := Nat.and_le_left
+        have h2 : x &&& y ≤ y := Nat.and_le_right
+        show x &&& y ≤ min ia.hi ib.hi
+        omega
+      · simp [E.evalW, hxw, hyw]
+      · simp [NE.evalZ, hxz, hyz]
+  | bor a b iha ihb =>
+    intro t ne hn
+    simp only [E.norm, Option.bind_eq_bind, Option.bind_eq_some_iff] at hn
+    obtain ⟨⟨ia, na⟩, ha, ⟨ib, nb⟩, hb, hn⟩ := hn
+    obtain ⟨x, hxc, ⟨hxl, hxh, hxd⟩, hxw, hxz⟩ := iha _ _ ha
+    obtain ⟨y, hyc, ⟨hyl, hyh, hyd⟩, hyw, hyz⟩ := ihb _ _ hb
+    simp only at hn
+    split at hn
+    · rename_i hc
+      simp only [Option.some.injEq, Prod.mk.injEq] at hn
+      obtain ⟨rfl, rfl⟩ := hn
+      have hor : x ||| y = x + y := by
+        rcases hc with hc | hc
+        · exact or_eq_add_of_lt (by omega) hyd
+        · rw [Nat.or_comm, Nat.add_comm]; exact or_eq_add_of_lt (by omega) hxd
+      refine ⟨x + y, ?_, ⟨?_, ?_, ?_⟩, ?_, ?_⟩
+      · simp [E.evalC, hxc, hyc, hor]
+      · show ia.lo + ib.lo ≤ x + y; omega
+      · show x + y ≤ ia.hi + ib.hi; omega
+      · exact Nat.dvd_add (pow_min_dvd_l hxd) (pow_min_dvd_r hyd)
+      · simp [E.evalW, hxw, hyw, hor]
+      · simp [NE.evalZ, hxz, hyz]
+    ·
+      simp only [Option.some.injEq, Prod.mk.injEq] at hn
+      obtain ⟨rfl, rfl⟩ := hn
+      refine ⟨x ||| y, ?_, ⟨Nat.zero_le _, le_bitCeil_or hxh hyh, Nat.one_dvd _⟩, ?_, ?_⟩
+      · simp [E.evalC, hxc, hyc]
+      · simp [E.evalW, hxw, hyw]
+      · simp [NE.evalZ, hxz, hyz]
+  | bxor a b iha ihb =>
+    intro t ne hn
+    simp only [E.norm, Option.bind_eq_bind, Option.bind_eq_some_iff] at hn
+    obtain ⟨⟨ia, na⟩, ha, ⟨ib, nb⟩, hb, hn⟩ := hn
+    obtain ⟨x, hxc, ⟨hxl, hxh, hxd⟩, hxw, hxz⟩ := iha _ _ ha
+    obtain ⟨y, hyc, ⟨hyl, hyh, hyd⟩, hyw, hyz⟩ := ihb _ _ hb
+    simp only at hn
+    simp only [Option.some.injEq, Prod.mk.injEq] at hn
+    obtain ⟨rfl, rfl⟩ := hn
+    refine ⟨x ^^^ y, ?_, ⟨Nat.zero_le _, le_bitCeil_xor hxh hyh, Nat.one_dvd _⟩, ?_, ?_⟩
+    · simp [E.evalC, hxc, hyc]
+    · simp [E.evalW, hxw, hyw]
+    · simp [NE.evalZ, hxz, hyz]
+  | cast w a iha =>
+    intro t ne hn
+    simp only [E.norm, Option.bind_eq_bind, Option.bind_eq_some_iff] at hn
+    obtain ⟨⟨ia, na⟩, ha, hn⟩ := hn
+    obtain ⟨x, hxc, ⟨hxl, hxh, hxd⟩, hxw, hxz⟩ := iha _ _ ha
+    simp only at hn
+    split at hn
+    · rename_i hlt
+      simp only [Option.some.injEq, Prod.mk.injEq] at hn
+      obtain ⟨rfl, rfl⟩ := hn
+      have hx2 : x % 2 ^ w = x := Nat.mod_eq_of_lt (by omega)
+      refine ⟨x, ?_, ⟨hxl, hxh, hxd⟩, ?_, hxz⟩
+      · simp [E.evalC, hxc, hx2]
+      · simp [E.evalW, hxw, hx2]
+    ·
+      simp only [Option.some.injEq, Prod.mk.injEq] at hn
+      obtain ⟨rfl, rfl⟩ := hn
+      refine ⟨x % 2 ^ w, ?_, ⟨Nat.zero_le _, le_pow_sub_one_of_mod _ _, pow_min_dvd_mod hxd⟩, ?_, ?_⟩
+      · simp [E.evalC, hxc]
+      · simp [E.evalW, hxw]
+      · simp [NE.evalZ, hxz]
+  | sel cnd a b ihc iha ihb =>
+    intro t ne hn
+    simp only [E.norm, Option.bind_eq_bind, Option.bind_eq_some_iff] at hn
+    obtain ⟨⟨ic, nc⟩, hc, ⟨ia, na⟩, ha, ⟨ib, nb⟩, hb, hn⟩ := hn
+    obtain ⟨z, hzc, ⟨hzl, hzh, hzd⟩, hzw, hzz⟩ := ihc _ _ hc
+    obtain ⟨x, hxc, ⟨hxl, hxh, hxd⟩, hxw, hxz⟩ := iha _ _ ha
+    obtain ⟨y, hyc, ⟨hyl, hyh, hyd⟩, hyw, hyz⟩ := ihb _ _ hb
+    simp only at hn
+    split at hn
+    · rename_i hlt
+      simp only [Option.some.injEq, Prod.mk.injEq] at hn
+      obtain ⟨rfl, rfl⟩ := hn
+      have hz2 : z < 2 := by omega
+      refine ⟨if z = 0 then x else y, ?_, ⟨?_, ?_, ?_⟩, ?_, ?_⟩
+      · simp [E.evalC, hzc, hxc, hyc, hz2]
+      · show min ia.lo ib.lo ≤ _; split <;> omega
+      · show _ ≤ max ia.hi ib.hi; split <;> omega
+      · split
+        · exact pow_min_dvd_l hxd
+        · exact pow_min_dvd_r hyd
+      · simp [E.evalW, hzw, hxw, hyw]
+      · simp only [NE.evalZ, hzz, hxz, hyz]
+        by_cases hz0 : z = 0
+        · simp [hz0]
+        · have : (z : Int) ≠ 0 := by omega
+          simp [hz0]
+    · simp at hn
+
+/-! ### statement lists -/
+
+theorem normBody_sound : ∀ (ss : List S) (ienv ienv' : List Itv) (nes : List NE) (env : List Nat),
+    EnvIn env ienv → normBody ss ienv = some (ienv', nes) →
+    ∃ env', runC ss env = some env' ∧ runW ss env = env' ∧ EnvIn env' ienv' ∧
+      runZ nes (toZ env) = toZ env'
+  | [], ienv, ienv', nes, env, h, hn => by
+      simp only [normBody, Option.some.injEq, Prod.mk.injEq] at hn
+      obtain ⟨rfl, rfl⟩ := hn
+      exact ⟨env, rfl, rfl, h, rfl⟩
+  | .set e :: ss, ienv, ienv', nes, env, h, hn => by
+      simp only [normBody, Option.bind_eq_bind, Option.bind_eq_some_iff] at hn
+      obtain ⟨⟨t, ne⟩, he, ⟨ienv'', nes'⟩, hss, hn⟩ := hn
+      simp only [Option.some.injEq, Prod.mk.injEq] at hn
+      obtain ⟨rfl, rfl⟩ := hn
+      obtain ⟨x, hxc, hxm, hxw, hxz⟩ := E.norm_sound h e t ne he
+      obtain ⟨env', h1, h2, h3, h4⟩ :=
+        normBody_sound ss (ienv ++ [t]) ienv'' nes' (env ++ [x]) (EnvIn_snoc h hxm) hss
+      refine ⟨env', ?_, ?_, h3, ?_⟩
+      · simp [runC, S.stepC, hxc, h1]
+      · simp [runW, S.stepW, hxw, h2]
+      · simp only [runZ, hxz, ← toZ_snoc]; exact h4
+  | .assertLt e n :: ss, ienv, ienv', nes, env, h, hn => by
+      simp only [normBody, Option.bind_eq_bind, Option.bind_eq_some_iff] at hn
+      obtain ⟨⟨t, ne⟩, he, hn⟩ := hn
+      simp only at hn
+      split at hn
+      · rename_i hlt
+        obtain ⟨x, hxc, ⟨hxl, hxh, hxd⟩, hxw, hxz⟩ := E.norm_sound h e t ne he
+        obtain ⟨env', h1, h2, h3, h4⟩ := normBody_sound ss ienv ienv' nes env h hn
+        have hxn : x < n := by omega
+        refine ⟨env', ?_, ?_, h3, h4⟩
+        · simp [runC, S.stepC, hxc, hxn, h1]
+        · simp [runW, S.stepW, h2]
+      · simp at hn
+
+theorem pickI_sound {env : List Nat} {ienv : List Itv} (h : EnvIn env ienv) :
+    ∀ (outs : List Nat) (post : List Itv), pickI ienv outs = some post → EnvIn (pick env outs) post
+  | [], post, hp => by
+      simp only [pickI, List.mapM_nil, pure, Option.some.injEq] at hp
+      subst hp
+      simp [pick, EnvIn]
+  | i :: outs, post, hp => by
+      simp only [pickI, List.mapM_cons, bind, Option.bind_eq_some_iff, pure, Option.some.injEq] at hp
+      obtain ⟨t, ht, ts, hts, rfl⟩ := hp
+      obtain ⟨x, hx, hm⟩ := EnvIn_get h ht
+      have := pickI_sound h outs ts hts
+      simp only [pick, List.map_cons, EnvIn, List.getD_eq_getElem?_getD, hx, Option.getD_some]
+      exact ⟨hm, by simpa [pick, List.getD_eq_getElem?_getD] using this⟩
+
+theorem toZ_pick (env : List Nat) (outs : List Nat) :
+    toZ (pick env outs) = outs.map (fun i => (toZ env).getD i 0) := by
+  simp only [pick, toZ, List.map_map]
+  apply List.map_congr_left
+  intro i _
+  exact (toZ_getD env i).symm
+
+/-! ### programs -/
+
+theorem Prog.norm_sound (p : Prog) (pre : List Itv) (q : NProg) (post : List Itv)
+    (h : p.norm pre = some (q, post)) (ins : List Nat) (hin : EnvIn ins pre) :
+    ∃ outs, p.evalC ins = some outs ∧ p.evalW ins = outs ∧ EnvIn outs post ∧
+      q.evalZ (toZ ins) = toZ outs := by
+  unfold Prog.norm at h
+  split at h
+  · rename_i hlen
+    simp only [Option.bind_eq_bind, Option.bind_eq_some_iff] at h
+    obtain ⟨⟨ienv, nes⟩, hb, post', hp, h⟩ := h
+    simp only [Option.some.injEq, Prod.mk.injEq] at h
+    obtain ⟨rfl, rfl⟩ := h
+    obtain ⟨env', h1, h2, h3, h4⟩ := normBody_sound p.body pre ienv nes ins hin hb
+    have hl : ins.length = p.nIn := by rw [EnvIn_length hin, hlen]
+    refine ⟨pick env' p.outs, ?_, ?_, pickI_sound h3 _ _ hp, ?_⟩
+    · simp [Prog.evalC, hl, h1]
+    · simp [Prog.evalW, h2]
+    · simp only [NProg.evalZ, h4, toZ_pick]
+  · simp at h
+
+theorem Prog.evalC_eq_evalW_of_norm (p : Prog) (pre : List Itv) (q : NProg) (post : List Itv)
+    (h : p.norm pre = some (q, post)) (ins : List Nat) (hin : EnvIn ins pre) :
+    p.evalC ins = some (p.evalW ins) := by
+  obtain ⟨outs, h1, h2, _, _⟩ := Prog.norm_sound p pre q post h ins hin
+  rw [h1, h2]
+
 end Dalek.IR
